@@ -9,7 +9,7 @@
    the set happens to be iterated, rules in the order validated; the result is Ok issues or the
    SigmaConditionError the reference validators raise on a condition that does not parse. *)
 From Coq Require Import NArith List Bool Permutation.
-From PS Require Import Base.Chars Base.Outcome Model.VCond Model.Validators Spec.ValidatorsSpec Proofs.ValidatorsP.
+From PS Require Import Base.Chars Base.Outcome Model.VCond Model.Validators Spec.ValidatorsSpec Proofs.ValidatorsP Model.TagValidators Proofs.TagValidatorsP.
 Import ListNotations.
 
 (* the regular expression built from a selector pattern selects exactly the names the pattern
@@ -138,6 +138,32 @@ Theorem C19_rule_issues_as_if_alone :
     (forall i, In i (rule_part E vs r) -> In i l).
 Proof. exact rule_part_alone. Qed.
 Print Assumptions C19_rule_issues_as_if_alone.
+
+(* validation only observes (tag validators, Model/TagValidators.v): the model of validator.validate
+   returns the issues together with the rule's tags as the validator leaves them, the next validator
+   sees what the previous one left; for every set and order of tag validators the tags come back as
+   they were ... *)
+Theorem C19_tags_observed_only : forall vs tags, snd (validate_tags vs tags) = tags.
+Proof. exact tags_unchanged. Qed.
+Print Assumptions C19_tags_observed_only.
+
+(* ... hence every validator judges the source tags and the issues do not depend on the validator order *)
+Theorem C19_tags_order_independent :
+  forall vs vs' tags, Permutation vs vs' ->
+    Permutation (fst (validate_tags vs tags)) (fst (validate_tags vs' tags)) /\
+    snd (validate_tags vs tags) = snd (validate_tags vs' tags).
+Proof. exact tags_order_independent. Qed.
+Print Assumptions C19_tags_order_independent.
+
+(* the TLP check is exact and case-sensitive: reported iff the tag is in the tlp namespace and its
+   name, as written, is not a label of one of the TLP validators in the set *)
+Theorem C19_tlp_exact :
+  forall vs tags t,
+    In (TITlp t) (fst (validate_tags vs tags)) <->
+    In t tags /\ t_ns t = s_tlp /\
+    exists v allowed, In v vs /\ tlp_allowed v = Some allowed /\ ~ In (t_name t) allowed.
+Proof. exact tlp_exact. Qed.
+Print Assumptions C19_tlp_exact.
 
 (* non-vacuity: a collection on which every kind of issue arises *)
 Open Scope N_scope.
